@@ -205,6 +205,19 @@ M.lemma("sorted_rows_ascend_by_rank", vars=dict(xs=Items), hyps=[], goal="ascend
         note="C08: in the sorted block a row of smaller key (rank if direct else -rank, direct) never follows one of larger key")
 
 
+M.lemma("insert_in_front", vars=dict(x=Item, ys=Items), hyps=["not ys or kle(x, ys[0])"], goal="oins(x, ys) == [x] + ys",
+        properties=["C08"])
+M.lemma("tail_of_ascending", vars=dict(xs=Items), hyps=["ascending(xs)", "len(xs) > 0"],
+        goal="ascending(xs[1:]) and (not xs[1:] or kle(xs[0], xs[1:][0]))", properties=["C08"])
+M.lemma("sorting_an_ascending_list_changes_nothing", vars=dict(xs=Items), hyps=["ascending(xs)"], goal="osort(xs) == xs", induct="xs",
+        use=["insert_in_front", "tail_of_ascending"], properties=["C08"],
+        instances=[("tail_of_ascending", dict(xs="xs")), ("insert_in_front", dict(x="xs[0]", ys="xs[1:]"))], note="stability: rows already in key order (in particular rows of equal key) keep their relative order")
+M.lemma("sorting_twice_is_sorting_once", vars=dict(xs=Items), hyps=[], goal="osort(osort(xs)) == osort(xs)",
+        use=["sorting_an_ascending_list_changes_nothing", "sorted_rows_ascend_by_rank"], properties=["C08"],
+        instances=[("sorting_an_ascending_list_changes_nothing", dict(xs="osort(xs)")), ("sorted_rows_ascend_by_rank", dict(xs="xs"))],
+        note="C08: the sort step of order_config is idempotent (idempotence of the whole of order_config, through get_order and the children, "
+             "is decided by the bounded layer)")
+
 GET_ORDER = M.contract(
     F, "Orderer.get_order", params=dict(self=Ord, row=STR, cmd_direct=BOOL, scope=OptStr), defaults=dict(scope=None), ret=GO, trusted=True,
     ensures=["result[0] == ord_of(self.rb, self.vendor, row, cmd_direct) if scope is None else True",
